@@ -26,7 +26,7 @@ RULE = ('T2: generated API-level requests and responses (all body source types, 
 	'non-trivial = distinct (kind, framing, source type, dropped?, coding, #ops) classes')
 EXHAUSTIVE = {'quick': False, 'thorough': False}
 TRUSTED = [
-	'harness/tables/composer.py (T1: block size, safe/dated/TRACE methods, request defaults, bodiless statuses, STATUSES header_to_remove, Allow default, 416 Content-Range literal, closing statuses, Connection literals, header priorities, list-valued fields, D29 and D42 probes)',
+	'harness/tables/composer.py (T1: block size, safe/dated/TRACE methods, request defaults, bodiless statuses, STATUSES header_to_remove, Allow default, 416 Content-Range literal, closing statuses, Connection literals, header priorities, list-valued fields, D29, D42 and D59 probes)',
 	'harness/composer_rec.py (T2/T3: messages built through the public API, frozen time.time, wrappers around GZip.encode / Deflate.encode / Element.split installed in the harness process, canonicalisation of header collections as (name, raw value) lists in dict order)',
 	'callees that are parameters of every theorem: content coders (zlib, gzip), Element.split of list-valued fields, codec lookup of a Content-Encoding value',
 	'the request target (bytes(uri) inside relative_uri()), the Host value and bytes(Date()) are inputs of the composer model (URI: C10, Date: C15)',
@@ -431,7 +431,8 @@ def nontrivial(c, o):
 LEVEL_TEXT = ('Machine-checked Coq theorems about an executable Gallina model of the composer (body sources as a four-constructor state machine, prepare for requests and '
 	'responses, header composition, content coding, chunk framing): for every message of the model, every content coder and both code variants, the composed octets '
 	'are accepted by an independent Gallina reader of RFC 7230 section 3 with exactly Content-Length octets or a complete chunked body whose payload is the (coded) content, '
-	'never both framings, no octets for bodiless responses (repaired variant; refuted with witness for the pinned tree, finding D29); prepare and compose are repeatable '
+	'never both framings, no octets for bodiless responses (repaired variant; refuted with witness for the pinned tree, finding D29); for a message object whose Body still carries '
+	'the content codec of an earlier use (finding D59) the repaired variant needs no precondition, the variant as found is refuted by witness; prepare and compose are repeatable '
 	'over arbitrary operation sequences for every body-source constructor (induction on the operation list), with the HEAD exception refuted by witness. '
 	'The model is tied to /repo on every run: tables regenerated, ~3000 operation sequences replayed inside Coq against the real composer.')
 LEVEL_NOTE = ('Trusted: Coq kernel + vm_compute; T1/T2/T3 harness; zlib/gzip, Element.split and the request target are parameters; Python object protocol of '
@@ -463,8 +464,10 @@ import io as _io
 UNI = ['e\u0301', '\u00e9', '\u212b', '\u00c5', 'A\u030a', '\u2126', '\u03a9', '\u212a', '\u1112\u1161\u11ab', '\ud55c', '\ufa10', '\u585a', '\uf900',
 	'\U0001f600', '\U00020000', '\U0002f800', '\ufb01', '\u1e9b\u0323', '\u0958', '\u00a0', '\u2028', '\ufeff', '\u0130', '\u00df', '\u01c4']
 LIMITS = [11, 12, 75, 76, 255, 256, 1023, 1024, 4095, 4096, 4097, 8190, 8191, 8192, 12288, 65535, 65536]
-# Kept out of SEQ_HDRS (reported): Content-Encoding.  After a response was prepared with Content-Encoding: gzip, removing the FIELD alone and preparing
-# again still sends the gzip-coded body (the coding stays on the Body), now without announcing it; ['coding', None] clears both, the public way that works.
+# Content-Encoding is not in the pool of the RANDOM header modifications (a caller-set field on a request, or a second list element, is a matter of D43 / of the
+# refusable spellings).  Its removal after a coded use is generated systematically instead (gen_classes, 'stale coding'): after a response was prepared with
+# Content-Encoding: gzip, removing the FIELD alone and preparing again sent the gzip-coded body (the coding stayed on the Body), without announcing it and,
+# with Content-Length framing, under the length of the uncoded content - finding D59, repaired (corpus/C05/D59-*.json); ['coding', None] clears both.
 SEQ_HDRS = [('X-Custom', ['a', 'b c', '1']), ('Connection', ['close', 'keep-alive']), ('ETag', ['"abc"']), ('Last-Modified', ['Sun, 06 Nov 1994 08:49:37 GMT']),
 	('Content-Type', ['application/octet-stream', 'text/html']), ('Cookie', ['a=b']), ('Set-Cookie', ['a=b', 'a=b, c=d']), ('Trailer', ['X-T']),
 	('Date', ['Thu, 01 Jan 1970 00:00:00 GMT']), ('Allow', ['GET']), ('Accept-Ranges', ['none', 'bytes']), ('User-Agent', ['ua/2']), ('Accept', ['text/html']),
@@ -1181,6 +1184,22 @@ def gen_classes(rng, tier):
 			first = [['ch', True]] + two if kind == 'req' and ((mu[0] == 'method' and mu[1] in ('GET', 'HEAD')) or (mu[0] == 'body' and not mu[1]['items'])) else two
 			for t in (('bytes', 'file') if mu[0] in ('te', 'status', 'method', 'rmethod') else ('bytes',)):
 				cases.append({'k': 'seq', 'base': _base(kind, {'t': t, 'items': [b'hello'.hex()]}), 'segs': [{'mut': [], 'ops': first}, {'mut': [mu], 'ops': two}, {'mut': [], 'ops': two}]})
+		# finding D59 (repaired): a response was prepared and composed with a content coding; then the FIELD alone is taken away (pop / del, three letter
+		# cases), with or without new content, keeping the chunked framing of the coded use or going back to Content-Length; prepared and composed again
+		if kind == 'resp':
+			for ci, coding in enumerate(('gzip', 'deflate')):
+				for ti, t in enumerate(('bytes', 'list', 'file', 'gen')):
+					for mi, mu in enumerate((['hpop', 'Content-Encoding'], ['hdel', 'content-encoding'], ['hpop', 'CONTENT-ENCODING'])):
+						for second in (None, {'t': ('bytes', 'tuple', 'bytesio')[mi], 'items': [b'second'.hex()], 'pos': 1}):
+							for back in (False, True):
+								if not big and (ci + ti + mi + back + (second is None)) % 2:
+									continue
+								mut = [mu] + ([['body', second, ('attr', 'set', 'bodyobj')[ti % 3]]] if second else []) + ([['te', False, ('composer', 'header', 'teprop', 'body')[(ti + mi) % 4]]] if back else [])
+								cases.append({'k': 'seq', 'base': _base('resp', {'t': t, 'items': [b'first'.hex()]}, coding=coding, status=(200, 404)[mi % 2]),
+									'segs': [{'mut': [], 'ops': two}, {'mut': mut, 'ops': two}, {'mut': [], 'ops': two + [['c']]}]})
+			for coding in ('gzip', 'deflate'):   # the shortest form
+				cases.append({'k': 'seq', 'base': _base('resp', {'t': 'bytes', 'items': [b'first'.hex()]}, coding=coding),
+					'segs': [{'mut': [], 'ops': two}, {'mut': [['hpop', 'Content-Encoding'], ['te', False, 'composer']], 'ops': two}]})
 		# the source the caller still holds grows between two uses; a second message shares the content / the Body / the request
 		for t in ('list', 'bytesio', 'file'):
 			for ch in (False, True):
